@@ -147,6 +147,8 @@ func c15CheckCemi(got, want cemi.Message, infoLen, dataLen int) {
 type c15Conn struct {
 	writes int
 	last   []byte
+	closed int
+	local  net.Addr
 }
 
 func (c *c15Conn) Read(b []byte) (int, error) { return 0, nil }
@@ -155,8 +157,11 @@ func (c *c15Conn) Write(b []byte) (int, error) {
 	c.last = append([]byte(nil), b...)
 	return len(b), nil
 }
-func (c *c15Conn) Close() error                       { return nil }
-func (c *c15Conn) LocalAddr() net.Addr                { return nil }
+func (c *c15Conn) Close() error {
+	c.closed++
+	return nil
+}
+func (c *c15Conn) LocalAddr() net.Addr                { return c.local }
 func (c *c15Conn) RemoteAddr() net.Addr               { return nil }
 func (c *c15Conn) SetDeadline(t time.Time) error      { return nil }
 func (c *c15Conn) SetReadDeadline(t time.Time) error  { return nil }
